@@ -118,6 +118,8 @@ def norm(v):
     if isinstance(v, array.array):
         return {'hex': v.tobytes().hex()}
     if isinstance(v, dict):
+        if len(v) == 1 and isinstance(dict.get(v, 'bool'), bool):
+            return v            # already normalised
         return {k: norm(dict.__getitem__(v, k)) for k in dict.keys(v)}
     if isinstance(v, (list, tuple)):
         return [norm(x) for x in v]
